@@ -15,6 +15,7 @@ import z3
 from . import sorts as S
 from .sorts import (V, VNum, VBool, VStr, VSet, VSeq, VOpt, VDict, VTup, VRec, VObj, VFunc, VNone, NONE,
                     VPyList, VTBDict, VBDict)
+from .sorts import VLDict
 
 REPO = os.environ.get("VERIF_REPO", "/repo")
 SRC = os.path.join(REPO, "src", "votekit")
@@ -689,7 +690,7 @@ class Exec:
     def contains(self, container, item, st):
         if isinstance(container, VSet) and isinstance(item, VStr):
             return container.term[item.term]
-        if isinstance(container, VDict) and isinstance(item, VStr):
+        if isinstance(container, (VDict, VLDict)) and isinstance(item, VStr):
             return container.keys[item.term]
         if isinstance(container, VSeq) and container.elem is S.Ballot and isinstance(item, VRec) and item.cls == "Ballot" and not self.spec_mode:
             # `b in ballots` in code: some element e with e.__eq__(b) (the element is the left operand, as CPython's sequence search compares)
@@ -960,6 +961,9 @@ class Exec:
             f = self.bfind(st, base, idx).term
             self.need(st, f >= 0, "KeyError", node, "dict key (Ballot)")
             return VNum(base.vals[f], "real")
+        if isinstance(base, VLDict) and isinstance(idx, VStr):
+            self.need(st, base.keys[idx.term], "KeyError", node, "dict key")
+            return VSeq(base.vals[idx.term], S.Ballot, "list")
         if isinstance(base, VDict) and isinstance(idx, VStr):
             self.need(st, base.keys[idx.term], "KeyError", node, "dict key")
             return VNum(base.vals[idx.term], "real" if base.val is S.Real else ("int" if base.val is S.Int else "float"))
